@@ -9,8 +9,10 @@ import (
 	"reflect"
 	"regexp"
 
+	pdata "github.com/opsidian/parsley/data"
 	"github.com/opsidian/parsley/parsley"
 	"github.com/opsidian/parsley/text"
+	"github.com/opsidian/parsley/text/terminal"
 )
 
 func init() { components["reader"] = readerMain }
@@ -177,50 +179,62 @@ func readerMain(mode string, a args) {
 				}
 				o.put(e)
 			}
-			for cur := 0; cur <= n; cur++ {
-				pos := base + cur
-				p := parsley.Pos(pos)
-				for _, ch := range []rune{'a', '\n', 'é', '€', 0xFFFD, 'b'} {
-					ch := ch
-					ev("ReadRune", pos, int(ch), func(e J) { np, ok := rd.ReadRune(p, ch); e["np"], e["ok"] = int(np), ok })
-				}
-				for _, s := range []string{"a", "a_", "é", "\n", " a"} {
-					s := s
-					ev("MatchString", pos, intsOf([]byte(s)), func(e J) { np, ok := rd.MatchString(p, s); e["np"], e["ok"] = int(np), ok })
-				}
-				for _, s := range []string{"a", "a_", "ab", "a1"} {
-					s := s
-					ev("MatchWord", pos, intsOf([]byte(s)), func(e J) { np, ok := rd.MatchWord(p, s); e["np"], e["ok"] = int(np), ok })
-				}
-				for _, m := range []string{"none", "spaces", "nl", "forcenl"} {
-					m := m
-					ev("SkipWs", pos, m, func(e J) { np, err := rd.SkipWhitespaces(p, rdModes[m]); e["np"], e["err"] = int(np), wsErrJ(err) })
-				}
-				ev("Remaining", pos, 0, func(e J) { e["np"] = rd.Remaining(p) })
-				ev("IsEOF", pos, 0, func(e J) { e["ok"] = rd.IsEOF(p) })
-				ev("Readf", pos, "digits", func(e J) { np, v := rd.Readf(p, rfDigits); e["np"], e["ok"], e["val"] = int(np), v != nil, intsOf(v) })
-				ev("Readf", pos, "pair", func(e J) { np, v := rd.Readf(p, rfPair); e["np"], e["ok"], e["val"] = int(np), v != nil, intsOf(v) })
-				for _, x := range rdExprs {
-					x := x
-					rx := -1
-					if cur <= len(data) {
-						if idx := regexp.MustCompile("^(?:" + x + ")").FindIndex(data[cur:]); idx != nil {
-							rx = idx[1]
+			for pass := 0; pass < 2; pass++ {
+				if pass == 1 {
+					// the built-in literal parsers read the same file through the same reader (custom functions handed to Readf,
+					// regular expressions): what the primitives return afterwards is still what the content prescribes
+					ctx := parsley.NewContext(parsley.NewFileSet(), rd)
+					for cur := 0; cur <= n; cur++ {
+						for _, lp := range []parsley.Parser{terminal.String("s", true), terminal.Char("c"), terminal.Integer("i"), terminal.Float("f"), terminal.Word("w", "a", 1), terminal.TimeDuration("d")} {
+							safely(func() { lp.Parse(ctx, pdata.EmptyIntMap, parsley.Pos(base+cur)) })
 						}
 					}
-					ev("ReadRegexp", pos, x, func(e J) {
-						e["rx"] = rx
-						np, v := rd.ReadRegexp(p, x)
-						e["np"], e["ok"], e["val"] = int(np), v != nil, intsOf(v)
-					})
-					ev("ReadRegexpSubmatch", pos, x, func(e J) {
-						e["rx"] = rx
-						np, v := rd.ReadRegexpSubmatch(p, x)
-						e["np"], e["ok"] = int(np), v != nil
-						if v != nil {
-							e["val"] = intsOf(v[0])
+				}
+				for cur := 0; cur <= n; cur++ {
+					pos := base + cur
+					p := parsley.Pos(pos)
+					for _, ch := range []rune{'a', '\n', 'é', '€', 0xFFFD, 'b', 0x161, 0x10A, 0x15F, 0x1F431} { // (the last four end in the bytes of 'a', LF, '_', '1')
+						ch := ch
+						ev("ReadRune", pos, int(ch), func(e J) { np, ok := rd.ReadRune(p, ch); e["np"], e["ok"] = int(np), ok })
+					}
+					for _, s := range []string{"a", "a_", "é", "\n", " a"} {
+						s := s
+						ev("MatchString", pos, intsOf([]byte(s)), func(e J) { np, ok := rd.MatchString(p, s); e["np"], e["ok"] = int(np), ok })
+					}
+					for _, s := range []string{"a", "a_", "ab", "a1"} {
+						s := s
+						ev("MatchWord", pos, intsOf([]byte(s)), func(e J) { np, ok := rd.MatchWord(p, s); e["np"], e["ok"] = int(np), ok })
+					}
+					for _, m := range []string{"none", "spaces", "nl", "forcenl"} {
+						m := m
+						ev("SkipWs", pos, m, func(e J) { np, err := rd.SkipWhitespaces(p, rdModes[m]); e["np"], e["err"] = int(np), wsErrJ(err) })
+					}
+					ev("Remaining", pos, 0, func(e J) { e["np"] = rd.Remaining(p) })
+					ev("IsEOF", pos, 0, func(e J) { e["ok"] = rd.IsEOF(p) })
+					ev("Readf", pos, "digits", func(e J) { np, v := rd.Readf(p, rfDigits); e["np"], e["ok"], e["val"] = int(np), v != nil, intsOf(v) })
+					ev("Readf", pos, "pair", func(e J) { np, v := rd.Readf(p, rfPair); e["np"], e["ok"], e["val"] = int(np), v != nil, intsOf(v) })
+					for _, x := range rdExprs {
+						x := x
+						rx := -1
+						if cur <= len(data) {
+							if idx := regexp.MustCompile("^(?:" + x + ")").FindIndex(data[cur:]); idx != nil {
+								rx = idx[1]
+							}
 						}
-					})
+						ev("ReadRegexp", pos, x, func(e J) {
+							e["rx"] = rx
+							np, v := rd.ReadRegexp(p, x)
+							e["np"], e["ok"], e["val"] = int(np), v != nil, intsOf(v)
+						})
+						ev("ReadRegexpSubmatch", pos, x, func(e J) {
+							e["rx"] = rx
+							np, v := rd.ReadRegexpSubmatch(p, x)
+							e["np"], e["ok"] = int(np), v != nil
+							if v != nil {
+								e["val"] = intsOf(v[0])
+							}
+						})
+					}
 				}
 			}
 		}
@@ -253,6 +267,9 @@ func readerMain(mode string, a args) {
 				if i > 0 && raw[i-1] == 0xC3 && r.Intn(2) == 0 {
 					raw[i] = 0xA9
 				}
+			}
+			if r.Intn(3) == 0 && l > 12 {
+				copy(raw[r.Intn(l-10):], []byte("\"a\\t_\\\"1\\n\""))
 			}
 			emitFile(raw, 1+r.Intn(40))
 		}
